@@ -269,7 +269,7 @@ pub fn run(tier: &str) -> i32 {
         "rule": "E1: every op sequence over the alphabet up to the depth, per family; each distinct prefix is observed once (info, has/get on 0..=len+1 and far indices) against the list model; states are exact fingerprints of (storage image, calls since last open); non-trivial = has an append and a clear/reopen",
         "families": fam_json,
         "page_scale_histories": nb,
-        "samples": *stats.samples.lock().unwrap(),
+        "samples": *stats.samples.lock().unwrap_or_else(|e| e.into_inner()),
         "exhaustive": true,
         "bounds": "see families: alphabet x depth; page-scale and oversized-entry histories are fixed lists",
     });
